@@ -1,7 +1,7 @@
 """Per-property claim texts for MANIFEST.json (kept next to the obligations registry)."""
 
 ENGINES = [
-    dict(name="jsym", path="jsym/", serves_properties=["C01", "C02", "C03", "C04", "C05", "C06", "C07", "C09", "C12", "C14", "C15", "C17", "C18", "C20"],
+    dict(name="jsym", path="jsym/", serves_properties=["C01", "C02", "C03", "C04", "C05", "C06", "C07", "C09", "C12", "C14", "C15", "C16", "C17", "C18", "C20"],
          kind_free_text="own concolic executor on z3: proxy objects for ints/reals/bools, every branch decided by the solver, replay-based DFS to exhaustion, prefix-sharded over 16 processes; real JADE code runs natively"),
 ]
 
@@ -91,5 +91,10 @@ CLAIMS["C14"] = dict(
     note=_HN + " scancel of a running batch kills its node (thread unwound, file system restored to the kill instant).",
     technique="bounded symbolic execution of the real code with z3 (jsym): solver-chosen cancel instant, schedules and follow-up commands")
 
+CLAIMS["C16"] = dict(
+    text="H-hooks: H-submit histories (HPC and local mode) with each of the four lifecycle commands set or unset by the solver (16 combinations), teardown-type commands optionally failing: observed at the subprocess boundary with argv and environment - setup once on the submitting host before the first sbatch/launch, teardown exactly once after every job has a result row and before the completion flag, node setup before the first launch of each batch and node teardown after the last exit and result row of each batch, once per batch, with JADE_RUNTIME_OUTPUT (all four) and JADE_SUBMISSION_GROUP (node commands); every job's result recorded and the submission completes.",
+    note=_HN + " Hook commands are model processes whose return code is a solver choice (0/1 for teardown-type hooks; a failing setup hook aborts by design and is outside the claim). Resubmission (teardown again, setup not again) is covered by C13's harness when built.",
+    technique="bounded symbolic execution of the real code with z3 (jsym): solver-chosen hook configurations, return codes and schedules")
+
 _TODO = "check not built yet in this session (planned in DESIGN.md section 6); not claimed until it exists"
-NOT_APPLICABLE = {p: _TODO for p in ["C08", "C10", "C11", "C13", "C16", "C19"]}
+NOT_APPLICABLE = {p: _TODO for p in ["C08", "C10", "C11", "C13", "C19"]}
